@@ -300,8 +300,22 @@ func c09RoundTrip(c *Ctx, r *Report, pi parserInfo, crc *ssa.Function, pkgRel st
 				continue
 			}
 			// a rejecting return that is feasible for an encoded legal request
+			// which encoded requests: for the read functions, the range of the frame's quantity field for
+			// which this refusal is reachable (so that a refusal of other requests at the same return
+			// is a different finding)
+			rng := ""
+			if sp != nil && pi.fc >= 1 && pi.fc <= 4 {
+				for _, lim := range sp.lim {
+					if fv, _, ok := findField(er.an.u, er.recv, er.tn, lim.field, 0); ok {
+						if ai, isI := fv.(AInt); isI {
+							lo, hi := rs.state.bounds(er.fr.useIn(ai, rs.state, "limit"))
+							rng = fmt.Sprintf(" [%s %d..%d]", strings.ToLower(lim.field), lo, hi)
+						}
+					}
+				}
+			}
 			rep(false, "parser can refuse a request the library itself encoded"+v.name, "rejecting return at "+c.pos(rs.instr.Pos())+" feasible under "+truncate(rs.state.String(), 400),
-				"refuses@"+c.exprAtReturn(rs.instr)+v.name)
+				"refuses@"+c.exprAtReturn(rs.instr)+v.name+rng)
 			okAll = false
 		}
 		for _, o := range an.obligs {
